@@ -1,6 +1,7 @@
 import KawinV.Proto
 import KawinV.Model.PBMTransport
-/-! driver verbs for the PBM transport model (Float instance) -/
+import KawinV.Model.GrainGrowth
+/-! driver verbs for the PBM transport model and the grain-growth post-processing order (Float instance) -/
 namespace KawinV.Drv.C07
 open KawinV.Proto KawinV.PBM
 
@@ -46,8 +47,45 @@ def dissidx : P String := do
   let vol : Nat → Float := fun i => fn pa i * (fn sa i * fn sa i * fn sa i)
   pure (toString (dissolutionIndex n md vol mi))
 
+/-- pbm.correctnf  netFlux(n+1) psd(n) nucIdx nucRate dt → corrected netFlux(n+1), dXdt(n)
+    (the correction applied to GIVEN face fluxes: in an RK4 stage `correctdXdtEuler` limits the fluxes of the stage
+    state with the distribution at the start of the iteration) -/
+def correctnf : P String := do
+  let nf0 ← flts; let p ← flts; let k ← nat; let nr ← flt; let dt ← flt
+  let n := p.length
+  let nf := correctedFlux n dt (fn p.toArray) (fn nf0.toArray)
+  let nfl := (List.range (n+1)).map nf
+  let d := (List.range n).map (dXdt nf k nr)
+  pure s!"{flist nfl} {flist d}"
+
+/-- gg.post  x(n0)  psdAdj(n1) boundsAdj(n1+1) sizeAdj(n1)  maxDiss
+    → stored index, truncated x (n0), stored (normalized) distribution (n1), index of the stored state
+    `KawinV.Grain.postProcess` with `adjust` := the grid adjustment observed on the implementation
+    (the grid operation is C08's; this verb ties the ORDER update → adjust → index → normalize). -/
+def ggpost : P String := do
+  let x ← flts; let pa ← flts; let ba ← flts; let sa ← flts; let md ← flt
+  let n0 := x.length; let n1 := pa.length
+  let xa := x.toArray; let paa := pa.toArray; let baa := ba.toArray; let saa := sa.toArray
+  let s0 : Grain.GState Float := { n := n0, psd := fun _ => 0.0, bounds := fun _ => 0.0, size := fun _ => 0.0 }
+  let adj : Grain.GState Float → Grain.GState Float :=
+    fun _ => { n := n1, psd := fn paa, bounds := fn baa, size := fn saa }
+  let r := Grain.postProcess adj md (fn xa) s0
+  let tr := (List.range n0).map (Grain.truncate (fn xa))
+  let st := (List.range n1).map r.state.psd
+  pure s!"{r.index} {flist tr} {flist st} {Grain.stateIndex md r.state}"
+
+/-- gg.getdt  bounds(n+1) growth(n+1) psd(n) storedIdx remaining ratio → dt  (`KawinV.Grain.getDt`) -/
+def gggetdt : P String := do
+  let b ← flts; let g ← flts; let p ← flts; let d ← nat; let c ← flt; let r ← flt
+  let st : Grain.Post Float :=
+    { state := { n := p.length, psd := fn p.toArray, bounds := fn b.toArray, size := fun _ => 0.0 }, index := d }
+  pure (fout (Grain.getDt c r (fn g.toArray) st))
+
 def handle (verb : String) : Option (P String) :=
   match verb with
+  | "pbm.correctnf" => some correctnf
+  | "gg.post" => some ggpost
+  | "gg.getdt" => some gggetdt
   | "pbm.dxdt" => some dxdt
   | "pbm.correct" => some correct
   | "pbm.getdt" => some getdt
